@@ -48,6 +48,7 @@ NI_MODELS = [
     ("nldf_j_sdmx", "rbf", "SEP", 1),
 ]
 NI_MOLS = ["H2", "HeH+", "LiH", "H2O", "OH", "O", "H"]
+REORDERED = {"LiH": "HLi", "OH": "HO", "HeH+": "HHe+", "H2O": "H2O_r"}
 MAXMEMS = [2000, 2000, 1.0, 0.2, 0.05, 0.01, 0.0005]
 
 
@@ -249,8 +250,11 @@ def gen_ni_history(seed):
         if mols and rng.chance(0.35):
             # equal-content copy or displaced copy of an earlier molecule
             d = dict(mols[rng.below(len(mols))])
-            if rng.chance(0.5):
+            c_ = rng.below(3)
+            if c_ == 0:
                 d["shift"] = [rng.uniform(-0.3, 0.3) for _ in range(3)]
+            elif c_ == 1 and d["name"] in REORDERED:
+                d["name"] = REORDERED[d["name"]]  # the same molecule with its atoms listed in another order
             mols.append(d)
         else:
             mols.append({"name": rng.choice(NI_MOLS), "basis": rng.choice(["sto-3g", "sto-3g", "6-31g"]), "dseed": rng.below(10**6)})
@@ -265,7 +269,12 @@ def gen_ni_history(seed):
         grids = [{"atom_grid": [200, 434], "prune": False}]
     ops = []
     for _ in range(rng.randint(3, 8)):
-        c = rng.weighted([("call", 8), ("reset", 1), ("build", 1), ("regrid", 1), ("regrid_inplace", 2 if nmol > 1 else 0)])
+        c = rng.weighted([("call", 8), ("reset", 1), ("build", 1), ("regrid", 1), ("regrid_inplace", 2 if nmol > 1 else 0), ("drop_all", 1)])
+        if c == "drop_all":
+            # a data-set loop: every long-lived object (molecules, grids, calculators) goes out
+            # of scope and is collected; later calls build new ones, possibly at the same addresses
+            ops.append({"op": "drop_all"})
+            continue
         if c == "call":
             nset = rng.weighted([(1, 4), (2, 3), (3, 2)])
             ops.append(
@@ -286,6 +295,14 @@ def gen_ni_history(seed):
                     "alias": rng.choice([None, None, None, "readonly", "fortran", "sameab"]),
                 }
             )
+            if rng.chance(0.1):
+                # a density far outside the range the settings were built for (poor initial guess):
+                # fresh objects reject it with the documented error, and so must long-lived ones;
+                # the objects are used again afterwards
+                ops[-1]["scale"] = rng.choice([8.0, 100.0, 3000.0])
+                ops[-1]["dms"] = ops[-1]["dms"][:1]
+                ops[-1]["container"] = "single"
+                ops[-1]["alias"] = None
             if rng.chance(0.12):
                 # the call is interrupted at a seeded point (un-acknowledged); most users then
                 # simply issue it again on the same objects
@@ -318,13 +335,14 @@ def exec_ni_history(hist, rp):
         viol.append({"key": key, "detail": detail, "replay": rp})
 
     held = []
+    last_call = rp.setdefault("_last_call", {})  # filled for the process-fresh reference (popped by run_case)
     calcs = {}  # model -> ks   long-lived calculators
     gridobjs = {}  # (model-is-nldf, mol, grid) -> grids object (long-lived, shared between calls)
     refs = {}
 
-    def reference(mi, k, gi, uks, j):
+    def reference(mi, k, gi, uks, j, scale=1.0):
         """fresh objects, nset = 1, default max_memory, one call, other allocator pattern"""
-        key = (mi, json.dumps(hist["mols"][k], sort_keys=True), json.dumps(hist["grids"][gi], sort_keys=True), uks, j)
+        key = (mi, json.dumps(hist["mols"][k], sort_keys=True), json.dumps(hist["grids"][gi], sort_keys=True), uks, j, scale)
         if key not in refs:
             set_perturb(hist["perturb"] ^ 0x5A)
             model = U.fresh_model(mi)
@@ -332,9 +350,17 @@ def exec_ni_history(hist, rp):
             ks = make_ks(model, mol, uks, hist["grids"][gi], hist["models"][mi])
             ks.build()
             g = build_grids(ks, mol)
-            dm = np.array(U.dm(k, 2 if uks else 1, j), copy=True)
+            dm = np.array(U.dm(k, 2 if uks else 1, j), copy=True) * scale
             fn = ks._numint.nr_uks if uks else ks._numint.nr_rks
-            n, e, v = fn(mol, g, ks.xc, dm)
+            try:
+                n, e, v = fn(mol, g, ks.xc, dm)
+            except RuntimeError as ex:
+                if scale != 1.0 and "exponent is too large" in str(ex):
+                    refs[key] = "rejected"
+                    stats["reference_calls"] += 1
+                    set_perturb(hist["perturb"])
+                    return refs[key]
+                raise
             refs[key] = (np.array(n, copy=True), float(e), np.array(v, copy=True))
             stats["reference_calls"] += 1
             set_perturb(hist["perturb"])
@@ -366,6 +392,18 @@ def exec_ni_history(hist, rp):
                 g.build(with_non0tab=False)
                 gridobjs[(key[0], op["to_mol"], key[2])] = g
                 stats["grids_rebuilt_in_place"] += 1
+            continue
+        if c == "drop_all":
+            import gc
+
+            calcs.clear()
+            gridobjs.clear()
+            U._mols.clear()
+            U._dms.clear()
+            U._models.clear()
+            ks = ni = g = mol = model = None
+            gc.collect()
+            stats["everything_dropped_and_collected"] += 1
             continue
         if c == "regrid":
             # replace the long-lived grids objects of this (mol, grid) by rebuilt-but-equal ones
@@ -406,7 +444,8 @@ def exec_ni_history(hist, rp):
             stats["spin_mode_switches_on_one_calculator"] += 1
         ni._verif_last_uks = uks
         nspin = 2 if uks else 1
-        dms = [np.array(U.dm(k, nspin, j), copy=True) for j in op["dms"]]
+        scale = float(op.get("scale", 1.0))
+        dms = [np.array(U.dm(k, nspin, j), copy=True) * scale for j in op["dms"]]
         if op["container"] == "single":
             arg = dms[0]
         elif op["container"] == "array":
@@ -440,13 +479,15 @@ def exec_ni_history(hist, rp):
             ref_exc = None
             try:
                 for j in op["dms"]:
-                    reference(mi, k, gi, uks, j)
+                    if reference(mi, k, gi, uks, j, scale) == "rejected":
+                        ref_exc = "RuntimeError"
             except Exception as ex2:
                 ref_exc = type(ex2).__name__
                 set_perturb(hist["perturb"])
             if ref_exc == type(ex).__name__ and isinstance(ex, RuntimeError) and "exponent is too large" in str(ex):
+                # a documented rejection that fresh objects issue as well; the objects are used again
                 stats["rejected_by_fresh_objects_too"] += 1
-                break
+                continue
             V("call-raises:%s:%s:%s" % ("nr_uks" if uks else "nr_rks", type(ex).__name__, tb[-1].name if tb else "?"), "step %d: %s" % (step, str(ex)[:200]))
             break
         if op.get("fault") and not inj.fired:
@@ -482,11 +523,18 @@ def exec_ni_history(hist, rp):
         e = np.asarray(e)
         held.append(("vmat", v, np.array(v, copy=True)))
         held.append(("nelec", n, np.array(n, copy=True)))
+        if scale == 1.0 and op["alias"] != "sameab":
+            last_call["op"] = {k_: v_ for k_, v_ in op.items() if k_ != "fault"}
+            last_call["out"] = (np.array(n, copy=True), np.array(e, copy=True), np.array(v, copy=True))
         stats["held_results_rechecked"] += 2
         for idx, j in enumerate(op["dms"]):
             if op["alias"] == "sameab":
                 continue  # other input than the memoised reference; only the mutation check applies
-            rn, re, rv = reference(mi, k, gi, uks, j)
+            rref = reference(mi, k, gi, uks, j, scale)
+            if rref == "rejected":
+                V("history_vs_fresh:%s:accepts-what-fresh-objects-reject" % site, "step %d: fresh objects raise 'NLDF exponent is too large' for this request, the long-lived calculator returned numbers" % step)
+                continue
+            rn, re, rv = rref
             if nset == 1 and (op["container"] == "single" or np.ndim(e) == 0):
                 # (a batch of one comes back either squeezed or with a leading axis of 1,
                 # depending on the integrator; both carry the same numbers)
@@ -1444,13 +1492,55 @@ def gen_history(kind, seed):
     return h
 
 
+def process_fresh_reference(hist, last, rp):
+    """The last integrator call of the history once more, alone, in a fresh interpreter
+    (other PYTHONHASHSEED): fresh objects inside this process share its module-level state
+    (tables memoised at import level, id()-keyed caches) with the long-lived ones, a new
+    process does not."""
+    import subprocess
+
+    sub = {k: v for k, v in hist.items() if k != "ops"}
+    sub["ops"] = [last["op"]]
+    sub["scribble"] = False
+    env = dict(os.environ)
+    env["PYTHONHASHSEED"] = str(1 + (hash(json.dumps(last["op"], sort_keys=True)) % 4000 if False else 7))
+    env["PYTHONPATH"] = os.path.dirname(os.path.dirname(os.path.dirname(os.path.abspath(__file__))))
+    p = subprocess.run([sys.executable, "-m", "cidersim.engines.history_child"], input=json.dumps(sub).encode(), capture_output=True, env=env, timeout=900)
+    lines = p.stdout.decode().strip().splitlines()
+    if p.returncode != 0 or not lines:
+        return [{"key": "process-fresh:child-failed", "detail": "rc=%s %s" % (p.returncode, p.stderr.decode()[-300:]), "replay": rp}], 0
+    res = json.loads(lines[-1])
+    if res.get("violations"):
+        # the single call disagrees with fresh objects even in a new process: reported by the
+        # in-process check already, nothing to add
+        return [], 1
+    if "out" not in res:
+        return [], 1
+    viol = []
+    for name, got, want in zip(("nelec", "excsum", "vmat"), last["out"], res["out"]):
+        ok, why = close(got, np.asarray(want, dtype=float).reshape(np.shape(got)) if np.size(want) == np.size(got) else np.asarray(want))
+        if not ok:
+            viol.append({"key": "history_vs_fresh_process:%s:%s" % ("nr_uks" if last["op"]["uks"] else "nr_rks", name), "detail": "the last call of the history differs from the same call made alone in a fresh interpreter: %s" % why, "replay": rp})
+    return viol, 1
+
+
 def run_case(spec):
     hist = spec.get("hist") or gen_history(spec["hkind"], spec["seed"])
-    rp = {"property": PROP, "engine": "histsim", "case": {"hist": hist, "hkind": spec.get("hkind"), "seed": spec.get("seed")}}
+    rp = {"property": PROP, "engine": "histsim", "case": {"hist": hist, "hkind": spec.get("hkind"), "seed": spec.get("seed"), "proc_ref": bool(spec.get("proc_ref"))}}
     try:
         viol, stats, dg = EXEC[hist["kind"]](hist, rp)
     finally:
         set_perturb(0)
+    last = rp.pop("_last_call", None)
+    if spec.get("child"):
+        out = {"violations": [v["key"] for v in viol]}
+        if last and "out" in last:
+            out["out"] = [np.asarray(x).tolist() for x in last["out"]]
+        return out
+    if spec.get("proc_ref") and hist["kind"] == "ni" and last and "out" in last and not viol:
+        v2, n2 = process_fresh_reference(hist, last, rp)
+        viol += v2
+        stats["process_fresh_references"] += n2
     stats["hist_" + hist["kind"]] += 1
     stats["perturb_%02x" % hist["perturb"]] += 1
     sample = {"kind": hist["kind"], "ops": hist["ops"][:8]}
@@ -1496,7 +1586,7 @@ def plan(tier, seed, args):
     if args.cases is not None:
         n_ni, n_gen, n_ev = args.cases, args.cases // 2, args.cases // 2
     for i in range(n_ni):
-        cases.append({"hkind": "ni", "seed": derive(seed, PROP, "ni", i) % 10**9})
+        cases.append({"hkind": "ni", "seed": derive(seed, PROP, "ni", i) % 10**9, "proc_ref": (i % 5 == 2)})
     for i in range(n_gen):
         cases.append({"hkind": "gen", "seed": derive(seed, PROP, "gen", i) % 10**9})
     for i in range(n_ev):
@@ -1543,7 +1633,7 @@ def minimise(v):
     key = v["key"]
 
     def fails(h):
-        r = run_pool([{"hist": h}], run_case, nproc=1, case_timeout=900)[0]
+        r = run_pool([{"hist": h, "proc_ref": bool(case.get("proc_ref"))}], run_case, nproc=1, case_timeout=900)[0]
         if key.endswith(":crash"):
             return bool(r) and "crashed" in r
         return bool(r) and "violations" in r and any(x["key"] == key for x in r["violations"])
@@ -1624,6 +1714,8 @@ def coverage(done, tier):
             "earlier_results_rechecked_after_later_calls": tot["held_results_rechecked"],
             "allocator_patterns": {k[8:]: v for k, v in tot.items() if k.startswith("perturb_")},
             "calls_interrupted_by_injected_failure": tot["calls_interrupted_by_injected_failure"],
+            "everything_dropped_and_garbage_collected": tot["everything_dropped_and_collected"] + tot["grids_dropped_and_collected"],
+            "last_call_recomputed_in_a_fresh_process": tot["process_fresh_references"],
             "injected_failure_sites": {k[11:]: v for k, v in sorted(tot.items()) if k.startswith("fault_site_")},
             "injected_failure_point_beyond_end_of_call": tot["injected_failure_point_beyond_end_of_call"],
             "caller_buffers_overwritten_after_call": tot["caller_buffers_overwritten_after_call"],
